@@ -72,6 +72,8 @@ class Ctx(object):
     self.mon_count = 0
     self.mon_taken = {}     # monitor serial -> samples returned so far
     self.dut_percent = False
+    self.dim_meas = set()   # names of dimensioned measurements
+    self.shared_fn = None
 
   def ev(self, kind, *args):
     return self.sim.event(self.tag + kind, *args)
@@ -89,6 +91,9 @@ def make_body(ctx, spec):
   """A phase function for one phase spec."""
   name = spec['name']
   ctx.specs[name] = spec
+  for m in spec.get('meas', ()):
+    if m.get('dim'):
+      ctx.dim_meas.add(m['name'])
 
   def body(test, **plugs):
     return run_body(ctx, name, test, plugs)
@@ -96,6 +101,17 @@ def make_body(ctx, spec):
   body.__name__ = name
   body.__qualname__ = name
   return body
+
+
+def make_shared_body(ctx):
+  """ONE function object used by several phases of a test (each phase binds its own options,
+  measurements and plugs to it); which phase is running is read from the phase logger's name."""
+
+  def shared_body(test, **plugs):
+    name = test.logger.name.rsplit('.phase.', 1)[1]
+    return run_body(ctx, name, test, plugs)
+
+  return shared_body
 
 
 def make_monitor(ctx, name):
@@ -113,6 +129,9 @@ def make_monitor(ctx, name):
       # the samples this thread took before this one have been assigned (and must have been notified)
       ctx.on_update('mon', name, 'mon_' + name, ctx.mon_taken.get(serial, 0))
     ctx.mon_taken[serial] = ctx.mon_taken.get(serial, 0) + 1
+    block = (ctx.specs.get(name, {}).get('monitor') or {}).get('block_s')
+    if block and ctx.mon_taken[serial] >= 2:
+      core.sim_sleep(block)
     return serial
 
   monitor.__name__ = 'monitor_' + name
@@ -129,7 +148,7 @@ def run_body(ctx, name, test, plugs):
       # give the monitor thread its first sample (time does not advance while it is runnable)
       core.sim_sleep(0.001)
     if plugs or spec['plugs']:
-      ctx.ev('plug_args', name, tuple((a, type(plugs[a]).__name__, getattr(plugs[a], 'serial', -1))
+      ctx.ev('plug_args', name, tuple((a, getattr(type(plugs[a]), 'LABEL', type(plugs[a]).__name__), getattr(plugs[a], 'serial', -1))
                                       for a in sorted(plugs)))
     if inv == 1 and spec.get('first'):
       ctx.ev('fresh_state', name, len(test.state), sorted(str(k) for k in test.state))
@@ -139,6 +158,9 @@ def run_body(ctx, name, test, plugs):
     for mname, val in beh.get('meas', []):
       if ctx.on_update is not None:
         ctx.sim.hot('measurement')   # a pre-emption inside the assignment / notification path
+      if mname in ctx.dim_meas:
+        test.measurements[mname][inv] = val
+        continue
       test.measurements[mname] = val
       if ctx.on_update is not None:
         ctx.on_update('meas', name, mname, val)
@@ -262,33 +284,34 @@ from wx.meta import NameHashMeta as _NameHashMeta  # untraced: hashing must not 
 
 class _ScriptedPlug(base_plugs.BasePlug, metaclass=_NameHashMeta):
   TAG = ''
+  LABEL = '?'
 
   def __init__(self):
     ctx = CURRENT[self.TAG]
-    cfg = ctx.plug_cfg.get(type(self).__name__, {})
+    cfg = ctx.plug_cfg.get(type(self).LABEL, {})
     ctx.plug_serial += 1
     self.serial = ctx.plug_serial
     self.ctx = ctx
-    ctx.ev('plug_ctor', type(self).__name__, self.serial)
-    self.logger.info('%sctor log %s', ctx.tag, type(self).__name__)
+    ctx.ev('plug_ctor', type(self).LABEL, self.serial)
+    self.logger.info('%sctor log %s', ctx.tag, type(self).LABEL)
     if cfg.get('ctor') == 'raise':
-      ctx.ev('plug_ctor_raise', type(self).__name__, self.serial)
-      raise OtherExc('ctor of %s' % type(self).__name__)
+      ctx.ev('plug_ctor_raise', type(self).LABEL, self.serial)
+      raise OtherExc('ctor of %s' % type(self).LABEL)
 
   def tearDown(self):
     ctx = self.ctx
-    cfg = ctx.plug_cfg.get(type(self).__name__, {})
-    ctx.ev('plug_td_start', type(self).__name__, self.serial)
+    cfg = ctx.plug_cfg.get(type(self).LABEL, {})
+    ctx.ev('plug_td_start', type(self).LABEL, self.serial)
     if cfg.get('td_log'):
-      self.logger.info('%std log %s', ctx.tag, type(self).__name__)
+      self.logger.info('%std log %s', ctx.tag, type(self).LABEL)
     td = cfg.get('teardown', 'ok')
     if td == 'raise':
-      ctx.ev('plug_td_raise', type(self).__name__, self.serial)
-      raise OtherExc('tearDown of %s' % type(self).__name__)
+      ctx.ev('plug_td_raise', type(self).LABEL, self.serial)
+      raise OtherExc('tearDown of %s' % type(self).LABEL)
     if td == 'raise_base':
       # e.g. a tearDown that calls sys.exit(), or is cancelled: not an Exception subclass
-      ctx.ev('plug_td_raise', type(self).__name__, self.serial)
-      raise SystemExit('tearDown of %s' % type(self).__name__)
+      ctx.ev('plug_td_raise', type(self).LABEL, self.serial)
+      raise SystemExit('tearDown of %s' % type(self).LABEL)
     if td == 'slow':
       core.sim_sleep(cfg.get('td_dur', 0.3))
     if td == 'hang':
@@ -302,30 +325,38 @@ class _ScriptedPlug(base_plugs.BasePlug, metaclass=_NameHashMeta):
         except htf_threads.ThreadTerminationError:
           pass
         left -= 0.5
-    ctx.ev('plug_td_end', type(self).__name__, self.serial)
+    ctx.ev('plug_td_end', type(self).LABEL, self.serial)
 
 
 class P0(_ScriptedPlug):
-  pass
+  LABEL = 'P0'
 
 
 class P1(_ScriptedPlug):
-  pass
+  LABEL = 'P1'
 
 
 class P2(_ScriptedPlug):
-  pass
+  LABEL = 'P2'
 
 
 class Q0(_ScriptedPlug):
   TAG = 'B:'
+  LABEL = 'Q0'
 
 
 class Q1(_ScriptedPlug):
   TAG = 'B:'
+  LABEL = 'Q1'
 
 
-PLUGS = {'': [P0, P1, P2], 'B:': [Q0, Q1, Q1]}
+def _same_named_class():
+  """A distinct plug class with the same module and __name__ as P0 (classes made by a factory)."""
+  return _NameHashMeta('P0', (_ScriptedPlug,), {'LABEL': 'P0dup', '__module__': P0.__module__, '__qualname__': 'P0'})
+
+
+P0DUP = _same_named_class()
+PLUGS = {'': [P0, P1, P2, P0DUP], 'B:': [Q0, Q1, Q1]}
 
 
 def make_callback(ctx, idx, kind, sink):
